@@ -81,7 +81,7 @@ DInv == \A i \in Live : LET o == obj[i] IN
 \* refinement mapping: forget lgCur
 Proj(o) == [lgMax |-> o.lgMax, lgLo |-> o.lgLo, lgHi |-> o.lgHi, cnt |-> o.cnt, offset |-> o.offset, total |-> o.total,
             truth |-> o.truth]
-C == INSTANCE FreqItems WITH obj <- [i \in DOMAIN obj |-> Proj(obj[i])]
+C == INSTANCE FreqItems WITH obj <- [i \in DOMAIN obj |-> Proj(obj[i])], WideNums <- FALSE
 \* every design step is a contract step whose free outcome (rows', offset') is the design's own post-state
 RefStep == \/ \E i \in Ids, lg \in LgMaxs \cup {LgMin} : i \notin Live /\ C!New(i, lg)
            \/ \E i \in Live \cap DOMAIN obj', x \in Items, w \in Weights : C!Update(i, x, w, obj'[i].cnt, obj'[i].offset)
